@@ -1,5 +1,6 @@
 import RCE.Driver.Codec
 import RCE.Proofs.KeyPartsDef
+import RCE.Model.Search
 import Std.Data.HashMap
 /-! Replays a `walk` / `fen` stream of the harness on the bitboard model and on the rules spec, and
     reports every difference.  Classes of report:
@@ -266,6 +267,25 @@ def onPerturb (s : St) (rest : String) : St := Id.run do
     s := s.report "model" "C05" "perturbation-keys" s!"impl=[{rest}] model=[{n} {ch} {hex64 a}]"
   return { s with stats := { s.stats with perturbed := s.stats.perturbed + 1, perturbations := s.stats.perturbations + total } }
 
+/-- `O` line: the move orderer's output for this position's generated moves, given a cache move and two killers -/
+def onOrder (s : St) (rest : String) : St := Id.run do
+  let (hd, ordered) := match rest.splitOn " | " with
+    | [a, b] => (a.splitOn " ", if b.isEmpty then [] else b.splitOn " ")
+    | _ => ([], [])
+  let all := s.mb.allMoves
+  let find (f : String) : Option Ply := if f == "-" then none else all.find? (fun m => moveFields m == f)
+  let tm := find (hd.getD 0 "-")
+  let k1 := find (hd.getD 1 "-")
+  let k2 := find (hd.getD 2 "-")
+  let mine := (RCE.Search.orderMoves chessGame tm (k1, k2) all).map moveFields
+  let mut s := s
+  if mine != ordered then
+    s := s.report "model" "C11,C16,C12" "move-order" s!"given=[{" ".intercalate hd}] impl=[{" ".intercalate (ordered.take 12)}…({ordered.length})] model=[{" ".intercalate (mine.take 12)}…({mine.length})]"
+  -- whatever the order: every generated move exactly once (a dropped move is never searched)
+  if sortStrs ordered != sortStrs (all.map moveFields) then
+    s := s.report "spec" "C11,C12,C16" "orderer-drops-or-repeats-moves" s!"generated={all.length} handed-out={ordered.length}"
+  return s
+
 /-- `Y` line: evaluation of a live board (or of a copy of it with one kind substituted) vs a fresh load of the same position -/
 def onPurity (s : St) (rest : String) : St :=
   let t := rest.splitOn " "
@@ -303,6 +323,7 @@ def step (s : St) (line : String) : St :=
   | "U" => onUnmake s
   | "P" => onPerturb s rest
   | "Y" => onPurity s rest
+  | "O" => onOrder s rest
   | "H" => onReached s rest
   | _ => s
 
